@@ -14,3 +14,18 @@ Proof.
   rewrite <- E1, <- E2. f_equal. apply c15_two_layouts; assumption.
 Qed.
 
+
+(* ---- a nickname and the candidate's number name the same candidate (getCid, token by token) ---- *)
+From Coq Require Import Lia.
+From Droop Require Import Proofs.RenderLemmas.
+Open Scope Z_scope.
+Lemma nick_or_number (st : pst) (nick d : ustr) (cid : Z) :
+  all_digits nick = false -> smap_get nick (s_nickCid st) = Some cid -> s_nickCid st <> [] ->
+  denotes d cid -> 0 < cid <= s_nCand st ->
+  getCid st nick = Ok cid /\ getCid st d = Ok cid.
+Proof.
+  intros Hn Hg Hne Hd Hr. split.
+  - unfold getCid. rewrite Hn. destruct (s_nickCid st) as [|x t] eqn:E; [contradiction|]. rewrite Hg. reflexivity.
+  - unfold getCid. destruct Hd as [Hd1 Hd2]. rewrite Hd1. rewrite (p_int_denotes d cid (conj Hd1 Hd2)). cbn [bind].
+    destruct ((0 <? cid) && (cid <=? s_nCand st)) eqn:E; [reflexivity|]. apply andb_false_iff in E. destruct E as [E|E]; [apply Z.ltb_ge in E|apply Z.leb_gt in E]; lia.
+Qed.
